@@ -45,6 +45,25 @@ Weight(u, v) == IF u = v THEN [k |-> "self", w |-> 0]
 EdgeList == {<<p[1], p[2], edges[p]>> : p \in Pairs}
 Degree(u) == Cardinality(From(u) \cup To(u))
 
+(**************************** returned edge VALUES ***************************)
+\* Edge(u, v) / WeightedEdge(u, v) / the items of Edges() return a VALUE (simple.Edge,
+\* simple.WeightedEdge): its ends and, for the weighted types, its weight.  ReversedEdge
+\* returns a new value with the ends swapped and the same weight.
+EdgeVal(u, v) == [f |-> u, t |-> v, w |-> edges[Norm(u, v)]]      \* defined iff HasFromTo(u, v)
+RevVal(e)     == [f |-> e.t, t |-> e.f, w |-> e.w]
+
+(**************** construction of the dense (matrix) graphs ******************)
+\* NewDirectedMatrix / NewUndirectedMatrix(n, init, self, absent) build the graph on nodes
+\* 0..n-1; New*MatrixFrom(nodes, init, self, absent) take the node objects, whose "IDs ...
+\* must be contiguous from 0 to len(nodes)-1, but may be in any order. If IDs are not
+\* contiguous New*MatrixFrom will panic".  "All edges are initialized with the weight given
+\* by init": with init = absent the graph starts without edges, otherwise complete.
+\* ord is the sequence of ids of the node slice handed to the constructor.
+IsPerm(ord) == {ord[i] : i \in 1 .. Len(ord)} = 0 .. (Len(ord) - 1)
+CtorEdges(N, init) ==
+    IF init = AbsentW THEN <<>>
+    ELSE [p \in {q \in N \X N : q[1] # q[2] /\ Norm(q[1], q[2]) = q} |-> init]
+
 (******************************** mutators **********************************)
 Ok    == last' = "ok"
 Panic == last' = "panic" /\ UNCHANGED <<nodes, edges>>
@@ -110,6 +129,12 @@ Symm   == ~Directed => \A u, v \in U : HasFromTo(u, v) = HasFromTo(v, u)
 Between == \A u, v \in U : HasBetween(u, v) = (HasFromTo(u, v) \/ HasFromTo(v, u))
 WeightOK == \A u, v \in U : (Weight(u, v).k = "edge") = HasFromTo(u, v)
 DenseNoAbsent == Dense => \A p \in Pairs : edges[p] # AbsentW
+\* the returned edge values: reversing twice gives the value back, the weight survives a
+\* reversal, and in an undirected graph the reversal of Edge(u, v) is the value of Edge(v, u)
+RevLaw == \A u, v \in U : HasFromTo(u, v) =>
+             /\ RevVal(RevVal(EdgeVal(u, v))) = EdgeVal(u, v)
+             /\ RevVal(EdgeVal(u, v)).w = Weight(u, v).w
+             /\ (~Directed => RevVal(EdgeVal(u, v)) = EdgeVal(v, u))
 
 \* action properties
 PanicLeavesUnchanged == [][last' = "panic" => UNCHANGED <<nodes, edges>>]_vars
@@ -118,14 +143,20 @@ RemoveNodeExact == [][\A n \in IDs : (n \in nodes /\ n \notin nodes') =>
                         /\ DOMAIN edges' = Pairs \ Incident(n)]_vars
 
 (**************************** generator role (R2) ***************************)
-\* printed once per distinct state (invariants are evaluated on new states)
-EmitState ==
-  Emit => PrintT(ToJson([k |-> "s", nodes |-> nodes, edges |-> EdgeList,
+\* the answers of every query in the current state
+StateAnswers ==
+  [k |-> "s", nodes |-> nodes, edges |-> EdgeList,
       from |-> [u \in IDs |-> From(u)], to |-> [u \in IDs |-> To(u)],
       heft |-> {<<u, v>> \in IDs \X IDs : HasFromTo(u, v)},
       heb  |-> {<<u, v>> \in IDs \X IDs : HasBetween(u, v)},
       w    |-> {[u |-> u, v |-> v, k |-> Weight(u, v).k, w |-> Weight(u, v).w] : u \in IDs, v \in IDs},
       deg  |-> [u \in IDs |-> Degree(u)],
       \* the undirected projection (graph.Undirect / graph.UndirectWeighted of a directed graph)
-      ufrom |-> [u \in IDs |-> From(u) \cup To(u)]]))
+      ufrom |-> [u \in IDs |-> From(u) \cup To(u)],
+      \* the value returned for every edge and the value its ReversedEdge must be
+      ev |-> {[u |-> p[1], v |-> p[2], w |-> EdgeVal(p[1], p[2]).w,
+               rf |-> RevVal(EdgeVal(p[1], p[2])).f, rt |-> RevVal(EdgeVal(p[1], p[2])).t,
+               rw |-> RevVal(EdgeVal(p[1], p[2])).w] : p \in {q \in IDs \X IDs : HasFromTo(q[1], q[2])}}]
+\* printed once per distinct state (invariants are evaluated on new states)
+EmitState == Emit => PrintT(ToJson(StateAnswers))
 =============================================================================
